@@ -225,6 +225,12 @@ func (e *Environment) makeRef(name string) (*Reference, bool) {
 		}
 		ref := Reference{Name: name, RefEnv: e.outer}
 		if r, isRef := obj.(Reference); isRef {
+			if _, alive := r.RefEnv.store[r.Name]; !alive {
+				// The variable that intermediate reference points to was deleted: forget it and keep looking outwards.
+				delete(e.outer.store, name)
+				e = e.outer
+				continue
+			}
 			log.Debugf("makeRef(%s) found ref %s in %d", name, r.Name, r.RefEnv.depth)
 			ref = r // set and return the original ref instead of ref of ref.
 		}
